@@ -252,6 +252,11 @@ func (r *FeatureLocal) ApproveOrDenyWrite(msg *api.Message, err model.ErrorType)
 
 	r.muxResponseCB.Lock()
 	timer, ok := r.pendingWriteApprovals[ski][*msg.RequestHeader.MsgCounter]
+	// the verdict has to be for the write that is pending under this counter, not
+	// for a write of an earlier connection of the peer that carried the same counter
+	if pending, exists := r.pendingWriteMessages[ski][*msg.RequestHeader.MsgCounter]; !exists || pending.DeviceRemote != msg.DeviceRemote {
+		ok = false
+	}
 	count := len(r.writeApprovalCallbacks)
 	r.muxResponseCB.Unlock()
 	verifYield("ApproveOrDenyWrite.looked-up")
